@@ -881,3 +881,132 @@ func catalogueSnapshotShipsLiveMeta(c *Ctx, r *Report, rule string) {
 		}
 	}
 }
+
+// ---- stored items are never modified in place --------------------------------------------------------------
+
+// publishedVertexWrites: element writes (map update / slice element store) whose container is the metadata or the vector
+// of a stored vertex, anywhere in the module (through accessors and one level of parameters).
+func publishedVertexWrites(c *Ctx, r *Report, rule string) {
+	fMeta := c.Field("index", "hnswVertex", "metadata")
+	fVec := c.Field("index", "hnswVertex", "vector")
+	if fMeta == nil || fVec == nil {
+		r.Unk(rule, "index.hnswVertex", "fields", "-", "metadata / vector not found")
+		return
+	}
+	callers := map[*ssa.Function][]*ssa.Call{}
+	var fns []*ssa.Function
+	for _, f := range c.ModFuncs {
+		if c.isProd(f) {
+			fns = append(fns, f)
+			eachInstr(f, func(i ssa.Instruction) {
+				if cl, ok := i.(*ssa.Call); ok && cl.Call.StaticCallee() != nil {
+					callers[cl.Call.StaticCallee()] = append(callers[cl.Call.StaticCallee()], cl)
+				}
+			})
+		}
+	}
+	var isStored func(v ssa.Value, depth int) *types.Var
+	isStored = func(v ssa.Value, depth int) *types.Var {
+		for _, o := range origins(v, originOpt{}) {
+			if fld := fieldOfValueDeep(o); fld == fMeta || fld == fVec {
+				return fld
+			}
+			if p, ok := o.(*ssa.Parameter); ok && depth > 0 {
+				f := p.Parent()
+				for k, pp := range f.Params {
+					if pp != p {
+						continue
+					}
+					for _, cl := range callers[f] {
+						if k < len(cl.Call.Args) {
+							if fld := isStored(cl.Call.Args[k], depth-1); fld != nil {
+								return fld
+							}
+						}
+					}
+				}
+			}
+		}
+		return nil
+	}
+	n, bad := 0, 0
+	for _, f := range fns {
+		eachInstr(f, func(i ssa.Instruction) {
+			var container ssa.Value
+			switch y := i.(type) {
+			case *ssa.MapUpdate:
+				container = y.Map
+			case *ssa.Store:
+				if ia, ok := y.Addr.(*ssa.IndexAddr); ok {
+					container = ia.X
+				}
+			case *ssa.Call:
+				if callID(&y.Call).is("builtin", "", "delete") {
+					container = y.Call.Args[0]
+				}
+			}
+			if container == nil {
+				return
+			}
+			n++
+			if fld := isStored(container, 2); fld != nil {
+				// a vector being filled by its own loader before the vertex exists is not a stored vertex's vector
+				if _, isP := strip(container).(*ssa.Parameter); isP && f.Signature.Recv() != nil && isVectorType(f.Signature.Recv().Type()) {
+					return
+				}
+				bad++
+				r.Bad(rule, fnName(f), fmt.Sprintf("in-place-write-%s#%d", fld.Name(), bad), c.InstrPos(i), "writes into the "+fld.Name()+" of a stored vertex in place: searches read it without a lock, the byte counter was computed from the old contents (it under-counts and later wraps), and a failed operation has already changed the item")
+			}
+		})
+	}
+	if bad == 0 {
+		r.OK(rule, "module", "no-in-place-write-to-stored-items", "-", fmt.Sprintf("%d element writes examined; none targets the vector or metadata of a stored vertex", n))
+	}
+}
+
+// ---- a result is never used while its error is thrown away -------------------------------------------------------
+
+func valueUsedErrorDiscarded(c *Ctx, r *Report, rule string, fns []*ssa.Function) {
+	n, bad := 0, 0
+	for _, f := range fns {
+		eachInstr(f, func(i ssa.Instruction) {
+			cl, ok := i.(*ssa.Call)
+			if !ok {
+				return
+			}
+			sig := cl.Call.Signature()
+			k := sig.Results().Len()
+			if k < 2 || !isErrorType(sig.Results().At(k-1).Type()) {
+				return
+			}
+			n++
+			errUsed, valUsed := false, false
+			if cl.Referrers() != nil {
+				for _, u := range *cl.Referrers() {
+					ex, ok := u.(*ssa.Extract)
+					if !ok || ex.Referrers() == nil {
+						continue
+					}
+					used := false
+					for _, uu := range *ex.Referrers() {
+						if _, dbg := uu.(*ssa.DebugRef); !dbg {
+							used = true
+						}
+					}
+					if ex.Index == k-1 {
+						errUsed = errUsed || used
+					} else {
+						valUsed = valUsed || used
+					}
+				}
+			}
+			if valUsed && !errUsed {
+				bad++
+				r.Bad(rule, fnName(f), fmt.Sprintf("error-discarded#%d", bad), c.Pos(cl.Pos()), "the result of "+callID(&cl.Call).Name+"() is used while its error is discarded: a failure is passed on as an (empty) success")
+			}
+		})
+	}
+	if bad == 0 {
+		r.OK(rule, "scope", "no-value-without-error-check", "-", fmt.Sprintf("%d calls returning (value, error) examined; none uses the value while dropping the error", n))
+	}
+}
